@@ -47,6 +47,10 @@ def f_unshift(x):
     return x - 10.0
 
 
+def f_sum2(a, b):
+    return a + b
+
+
 def f_sum3(a, b, c):
     return a + b + c
 
@@ -164,7 +168,7 @@ def load(text, trace=None):
 UNITS = [None, None, "m", "cm", "km", "s", "deg"]
 COLORS = ["#aa3311", "red", "#00ff7f", "0.35", "#123456", "blue"]
 ORDER_MODES = ["plain", "plain", "plain", "derived_early", "reorder_first", "reorder_middle", "reversed_chain",
-               "first_overall"]
+               "first_overall", "coords_shuffled"]
 COORD_KINDS = [None, None, "identity", "diagonal", "coupled_symmetric", "coupled_triangular", "permuted", "full", "wcs",
                "scaled"]
 DTYPE_VARIANTS = ["int8", "int16", "int32", "int64", "uint8", "uint16", "uint32", "uint64", "float32", "float64", ">f8",
@@ -474,6 +478,29 @@ def make_dataset(rng, idx, shape, opts, label=None, force=None):
         else:   # "first_overall" (probe): derived columns even ahead of the pixel / world coordinates
             new = derived[::-1] + coord + main
         d.reorder_components(new)
+    if order_mode == "coords_shuffled":
+        # the pixel (and world) coordinate components themselves out of axis order, mixed with the columns,
+        # e.g. [pix1, v, world0, pix0, w, world1, ...]
+        pix, wor = list(d.pixel_component_ids), list(d.world_component_ids)
+        rest = [c for c in d.components if not any(c is x for x in pix + wor)]
+        if nd >= 2:
+            coords_ = pix[::-1] + wor[::-1] if rng.random() < 0.5 else pix[1:] + wor + pix[:1]
+            if rng.random() < 0.5:
+                rng.shuffle(coords_)
+                if [c for c in coords_ if any(c is p for p in pix)] == pix:
+                    coords_ = coords_[::-1]
+            new = []
+            k_ = 0
+            for i_, c in enumerate(coords_):
+                new.append(c)
+                if k_ < len(rest):
+                    new.append(rest[k_])
+                    k_ += 1
+            new += rest[k_:]
+            d.reorder_components(new)
+            variants.append("coordinate_components_out_of_axis_order")
+        else:
+            info["order_mode"] = "plain"
     if opts.get("style", True) and rng.random() < 0.7:
         st, tags = rand_style(rng)
         apply_style(d.style, st)
@@ -871,6 +898,7 @@ def sig_classes(sig):
 
 # ------------------------------------------------------------------ link recipes
 LINK_KINDS = ["LinkSame", "LinkSame", "LinkTwoWay", "ComponentLink_fn", "ComponentLink_fn_inverse", "ComponentLink_multi",
+              "ComponentLink_mixed",
               "ComponentLink_identity", "ComponentLink_method", "LinkSame_pixel", "JoinLink", "Celestial", "WCSLink",
               "LinkAligned", "LinkSameWithUnits"]
 CELESTIAL = ["Galactic_to_FK5", "FK4_to_FK5", "ICRS_to_FK5", "Galactic_to_FK4", "ICRS_to_FK4", "ICRS_to_Galactic",
@@ -896,6 +924,9 @@ def make_link(rng, kind, a, b, opts):
     if kind == "ComponentLink_multi":
         return ComponentLink([da.id["v"], da.id["w"], da.id["i"]], db.id["v"], using=f_sum3), {"link": "ComponentLink",
                                                                                                "using": "function3"}
+    if kind == "ComponentLink_mixed":
+        # two inputs, one in the output's own dataset and one foreign
+        return ComponentLink([db.id["i"], da.id["w"]], db.id["v"], using=f_sum2), {"link": "ComponentLink", "using": "mixed_inputs"}
     if kind == "ComponentLink_identity":
         return ComponentLink([da.id["i"]], db.id["w"]), {"link": "ComponentLink", "using": "identity"}
     if kind == "ComponentLink_method":
@@ -1049,6 +1080,11 @@ def build_session(rng, opts=None, workdir=None):
         # inside one table): d0.w <-> d1.v are linked both ways, so d1.v can be read on d0
         nds = max(nds, 2)
         want_link = "LinkTwoWay"
+    if special == "coords_reordered":
+        # two pixel-aligned images whose coordinate components were reordered out of axis order before saving
+        nds = max(nds, 2)
+        want_link = rng.choice(["LinkAligned", "LinkAligned", "LinkSame_pixel"])
+        opts["order_mode"] = "coords_shuffled"
     if special == "element_bound":
         # an element selection bound to the first table, next to a key-joined and an unrelated table that are long
         # enough for its indices
@@ -1106,6 +1142,13 @@ def build_session(rng, opts=None, workdir=None):
         shapes[pair[1]] = shapes[pair[0]]
     if special == "element_bound":
         shapes = [(rng.randint(2, 4),), (rng.randint(4, 7),), (rng.randint(4, 7),)]
+    if special == "coords_reordered":
+        shp = tuple(rng.randint(2, 4) for _ in range(rng.choice([2, 2, 3])))
+        if len(set(shp)) == 1:
+            shp = shp[:-1] + (shp[-1] + 1,)         # different axis lengths: a transposition cannot go unnoticed
+        shapes = [shp for _ in range(nds)]
+        for f in force:
+            f["coords"] = rng.choice([None, "identity", "diagonal", "full"])
     for i in range(nds):
         if files and (i == 0 or rng.random() < 0.5):
             ses.ds.append(load_file_dataset(rng, i, workdir, opts))
@@ -1498,6 +1541,9 @@ def observe(dc, level="full"):
             o["units"][key] = comp.units if comp.units not in ("",) else None
             if kind == "categorical":
                 o["cat"][key] = (np.array(comp.labels), np.array(comp.categories))
+        o["coord_ids"] = ([(c.label, getattr(c, "axis", None), [i for i, x in enumerate(cids) if x is c]) for c in d.pixel_component_ids],
+                          [(c.label, getattr(d.get_component(c), "axis", None), [i for i, x in enumerate(cids) if x is c])
+                           for c in d.world_component_ids])
         o["role_counts"] = (len(d.pixel_component_ids), len(d.world_component_ids), len(d.main_components),
                             len(d.derived_components))
         for k, v in d.meta.items():
@@ -1652,6 +1698,9 @@ def diff_obs(a, b, skip=()):
                     out.append(("categorical_labels", i, "differs", {"component": key, "before": lx, "after": ly}))
                 elif not np.array_equal(cx, cy):
                     out.append(("categorical_categories", i, "differs", {"component": key, "before": cx, "after": cy}))
+        if x["coord_ids"] != y["coord_ids"] and x["components"] == y["components"]:
+            out.append(("coordinate_ids", i, "pixel" if x["coord_ids"][0] != y["coord_ids"][0] else "world",
+                        {"before": x["coord_ids"], "after": y["coord_ids"]}))
         if x["role_counts"] != y["role_counts"] and x["components"] == y["components"]:
             out.append(("component_roles", i, "differs", [x["role_counts"], y["role_counts"]]))
         if (x["coords_class"] is None) != (y["coords_class"] is None):
